@@ -14,6 +14,7 @@
 //   SP <threads> <trace> <N> {<len> v..}xN W <N*N doubles> L <nl> lm..
 //        R full N N .. ; R land nl N .. (if nl > 0) ; R trace / R ltrace (pairs u v of callback calls,
 //        only when trace=1, which forces one thread); entries equal to DBL_MAX print as "inf"
+//   SPD <same as SP>   samples in a std::deque, object ids different from positions (trace ignored)
 //   ISO <threads> iso|liso brute|vptree|covertree dense|randomized <k> <d> <ratio> <seed> <N> <N*N doubles>
 //        R nbrs0 N K ints (what find_neighbors_with returned) ; R nbrs N K ints (what the geodesic routine was
 //        given) ; R lm nl 1 ints (liso) ; R geo r c .. ; R B<i> n m .. (each matrix handed to
@@ -26,6 +27,7 @@
 #include <cmath>
 #include <cstdio>
 #include <cstdlib>
+#include <deque>
 #include <iostream>
 #include <limits>
 #include <numeric>
@@ -217,7 +219,20 @@ static void bad(int k, const char* why)
     std::cout << "X " << k << " bad-input " << why << std::endl;
 }
 
-static void run_sp(int k, std::istringstream& is)
+// SPD (wave 4): the same request by another C++ route — the samples live in a std::deque (random access, NOT contiguous)
+// and are object ids pi(i) = (N-1-i + N/3) mod N that differ from their positions; the callback is handed the ids.
+// Everything the routine returns is indexed by position, so the output is that of SP.
+struct permuted_table_callback
+{
+    const DenseMatrix* T;
+    const std::vector<IndexType>* inv;
+    inline ScalarType distance(IndexType a, IndexType b) const
+    {
+        return (*T)((*inv)[a], (*inv)[b]);
+    }
+};
+
+static void run_sp(int k, std::istringstream& is, bool other_route = false)
 {
     int threads, trace, N;
     if (!(is >> threads >> trace >> N) || N < 1 || N > 5000 || threads < 1 || threads > 64) return bad(k, "header");
@@ -249,6 +264,27 @@ static void run_sp(int k, std::istringstream& is)
         int v;
         if (!(is >> v) || v < 0 || v >= N) return bad(k, "landmark");
         lm.push_back(v);
+    }
+    if (other_route)
+    {
+        std::deque<IndexType> objs;
+        std::vector<IndexType> inv(N);
+        for (int i = 0; i < N; i++)
+        {
+            IndexType id = (N - 1 - i + N / 3) % N;
+            objs.push_back(id);
+            inv[id] = i;
+        }
+        omp_set_num_threads(threads);
+        permuted_table_callback pcb{&T, &inv};
+        DenseMatrix full = tapkee_internal::compute_shortest_distances_matrix(objs.begin(), objs.end(), nbrs, pcb);
+        print_matrix("full", full);
+        if (nl > 0)
+        {
+            DenseMatrix land = tapkee_internal::compute_shortest_distances_matrix(objs.begin(), objs.end(), lm, nbrs, pcb);
+            print_matrix("land", land);
+        }
+        return;
     }
     std::vector<IndexType> idx(N);
     std::iota(idx.begin(), idx.end(), 0);
@@ -526,6 +562,8 @@ int main()
         {
             if (cmd == "SP")
                 run_sp(k, is);
+            else if (cmd == "SPD")
+                run_sp(k, is, true);
             else if (cmd == "BIG")
                 run_big(k, is);
 #ifdef C04_WITH_ISO
